@@ -36,6 +36,8 @@ def labelled(rows: int, cols: int | None, entries: str):
         a = idx * 1.25 + 0.5
     elif entries == "complex":
         a = (idx + 1) + 1j * ((idx * 7919 + 13) % 10007)
+    elif entries == "ctiny":  # imaginary parts of order 1e-15: a relabelling may not apply an absolute threshold to its entries
+        a = (idx + 1) + 1j * (((idx * 7919 + 13) % 10007) * 2.0 ** -60)
     else:
         raise KeyError(entries)
     if cols is None:
@@ -126,7 +128,7 @@ def index_cases(tier, seed):
                             forms += ["omitted"]
                         for dimform in forms:
                             for storage in ("dense", "csr"):
-                                ents = ("sym", "int", "intB", "float", "complex") if storage == "dense" else ("int", "complex")
+                                ents = ("sym", "int", "intB", "float", "complex", "ctiny") if storage == "dense" else ("int", "complex")
                                 if R * C > 400:
                                     ents = ents[:2]
                                 for ent in ents:
